@@ -2,7 +2,13 @@
 specs/bytebuffer/ByteBuffer.tla, model-checked exhaustively; TLC plans and seeded boundary-biased
 histories are executed on tex.Buffer AND on the real bytes.Buffer; both recordings are validated by
 ByteBuffer_Trace.  A rejected bytes.Buffer trace means the spec mis-states the reference (exit 2);
-a rejected tex.Buffer trace is the violation."""
+a rejected tex.Buffer trace is the violation.
+Beyond plain call sequences: half of the histories keep what calls handed back (String(), the slice
+filled by Read) as returned and render it when the history is over; input slices are reused across calls,
+checked for modification and overwritten after the call; writes through Bytes(); two buffers of the type
+feeding each other; readers/writers that end with every error kind (io.EOF, wrapped EOF, other errors,
+with or without data, negative count, panic); arguments at the ends of the int range; a call that does
+not return, a panicking observer/constructor and out-of-range results are events TLC rejects."""
 import json
 
 from vlib import MachineryError, log
@@ -22,7 +28,7 @@ def run(ctx):
     binary = ctx.go_build("c11")
     tex_f, std_f = ctx.path("tex.ndjson"), ctx.path("std.ndjson")
     out = ctx.harness(binary, ["-plans", pdir, "-out", tex_f, "-ref", std_f, "-seed", ctx.seed,
-                               "-hist", ctx.q(400, 4000), "-maxops", ctx.q(80, 150)],
+                               "-hist", ctx.q(400, 4000), "-maxops", ctx.q(80, 150), "-hang", "20s"],
                       traces=[tex_f])
     stats = {}
     for ln in out.split("\n"):
@@ -49,11 +55,15 @@ def run(ctx):
     # 4b. the verdict: what tex.Buffer did
     rj = ctx.validate(fam, "ByteBuffer_Trace", "ByteBuffer_Trace.cfg", tex, label="tex.Buffer", chunk=30000)
     ctx.judge(rj)
-    if stats and not getattr(ctx, "crash", None):
-        missing = [p for p in ("small-buffer", "first-alloc", "reslice", "slide-down", "reallocate", "recycle-empty")
-                   if not stats.get("paths", {}).get(p)]
-        if missing:
-            raise MachineryError("grow() paths never taken by any history: %s" % missing)
+    # which way tex's grow() went is a property of the implementation under test: a path that no history
+    # took is reported in the evidence, it is not a machinery error (a refactored grow() may not have it)
+    missing = [p for p in ("small-buffer", "first-alloc", "reslice", "slide-down", "reallocate", "recycle-empty")
+               if not stats.get("paths", {}).get(p)]
+    if missing:
+        log("[note] grow() paths not taken by tex.Buffer in this run: %s" % missing)
+    ctx.extra["grow_paths_not_taken"] = missing
+    if stats.get("hang"):
+        log("[exec] a call into tex.Buffer did not return within 20s: recorded as a `hang` event")
     ctx.extra["plans"] = len(plans)
     ctx.extra["histories"] = len(tex)
     ctx.extra["grow_paths_taken_by_tex"] = stats.get("paths", {})
@@ -61,6 +71,7 @@ def run(ctx):
     ctx.extra["max_unread_len"] = stats.get("max_len", 0)
     ctx.extra["unread_directly_after_grow_calls"] = stats.get("unread_after_grow", 0)
     ctx.extra["histories_where_replies_differ_from_bytes_Buffer"] = stats.get("histories_where_tex_and_std_differ", 0)
+    ctx.extra["histories_rendered_at_their_end"] = stats.get("lazy_histories", 0)
     ctx.assumptions += [
         "UTF-8 decoding/encoding is specified in ByteBuffer.tla; the real bytes.Buffer is validated against it in "
         "the same run, so a mistake there is a machinery error, not a verdict",
@@ -70,12 +81,18 @@ def run(ctx):
         "0..Len a panic or a no-op are both accepted",
         "grow-path classification (reslice/slide/reallocate) is derived from Cap() and the address of Bytes() "
         "for coverage statistics only",
+        "Bytes()/Next() results alias the buffer by contract and are rendered at once; String() and the slice "
+        "filled by Read are the caller's and are rendered at the end of every second history",
+        "math.MaxInt/MinInt arguments are carried as +-2147483647 (to the model: beyond any length); sizes that "
+        "would really allocate (Read, successful Grow, NewSizedBuffer) stay <= 65536",
+        "not goroutine-safe by contract (as bytes.Buffer): no concurrent histories",
     ]
     return ctx.finish(
         rule="plans = TLC simulation of ByteBuffer.tla (one ticket per operation kind, payloads up to 512 bytes); "
-             "histories = seeded random over all 21 operations with sizes at the free-space / half-capacity / 64 / "
-             "512 thresholds, UTF-8 edge runes incl. negative, surrogates, > U+10FFFF; 4 constructors; a trace is "
-             "one buffer lifetime",
+             "histories = seeded random over all 24 operations with sizes at the free-space / half-capacity / 64 / "
+             "512 thresholds and the ends of the int range, UTF-8 edge runes incl. negative, surrogates, > U+10FFFF, "
+             "8 reader / 5 writer endings; 4 constructors (+ NewBuffer(nil), spare capacity 0..600, sizes below the "
+             "small-buffer size); a trace is one buffer lifetime",
         explanation="every call's result/error/panic and (Len, Bytes) afterwards, recorded from tex.Buffer, must be "
                     "an outcome the bytes.Buffer contract (ByteBuffer.tla) allows; the same operations recorded "
                     "from the real bytes.Buffer are validated against the same spec")
